@@ -1,6 +1,7 @@
 //! `vh` — conformance harness binding the TLA+ specifications in /verif/spec to the
 //! brave/sta-rs crates built from /repo's working tree.
 mod ggm;
+mod srv;
 mod util;
 
 use util::*;
@@ -18,6 +19,8 @@ fn main() {
     "ggm-record" => ggm::record(&a),
     "ggm-pairs" => ggm::pairs(&a),
     "ggm-export" => ggm::export(&a),
+    "srv-replay" => srv::replay(&a),
+    "srv-record" => srv::record(&a),
     other => {
       eprintln!("unknown subcommand {other}");
       std::process::exit(2);
